@@ -2,7 +2,9 @@
    usage: mx oracle < cases
    Case line = <tokens as printed by `hx tokens`, without the part after '|'> TAB <events as printed by
    `hx events str`, without the part after '|'>.
-   Result line = "<h><g><i> flow=<n> nest=<n> other=<n> depth=<n>"  (h, g, i: 1 = the theorem's inequality holds) *)
+   Result line = "<h><g><i><t><k> flow=<n> nest=<n> other=<n> depth=<n> tokbound=<n> bound=<n>"
+   (h, g, i, t, k: 1 = the theorem's inequality holds; t: token nesting <= NEST_TOK_BOUND, k: event nesting <= NEST_BOUND;
+    the two bounds are the Coq constants, computed from Gen/Consts.v) *)
 open Model
 
 let rec pos_of_int i = if i = 1 then XH else if i land 1 = 0 then XO (pos_of_int (i lsr 1)) else XI (pos_of_int (i lsr 1))
@@ -67,10 +69,12 @@ let oracle line =
   match String.split_on_char '\t' line with
   | [t; e] ->
       let toks = List.map parse_tok (split_items t) and evs = List.map parse_event_kind (split_items e) in
-      let ((h, g), i) = c11_oracle toks evs in
+      let ((((h, g), i), t), k) = c11_oracle toks evs in
       let (((fl, ne), ot), de) = c11_measures toks evs in
+      let (tb, eb) = c11_bounds in
       let b x = if x then "1" else "0" in
-      Printf.sprintf "%s%s%s flow=%d nest=%d other=%d depth=%d" (b h) (b g) (b i) (int_of_n fl) (int_of_n ne) (int_of_n ot) (int_of_n de)
+      Printf.sprintf "%s%s%s%s%s flow=%d nest=%d other=%d depth=%d tokbound=%d bound=%d" (b h) (b g) (b i) (b t) (b k)
+        (int_of_n fl) (int_of_n ne) (int_of_n ot) (int_of_n de) (int_of_n tb) (int_of_n eb)
   | _ -> failwith "case"
 
 let () =
